@@ -14,6 +14,8 @@ elab "#audit_ns " ns:ident : command => do
     if nsName.isPrefixOf n && !n.isInternal then
       match ci with
       | .thmInfo _ =>
+        -- projections of a Prop-valued structure (e.g. the fields of a hypothesis bundle) are not proof obligations
+        if env.isProjectionFn n then continue
         let axs ← liftCoreM (collectAxioms n)
         items := items.push (n, axs, "theorem")
       | _ => pure ()
